@@ -180,7 +180,7 @@ func registerMore2() {
 		Assumptions: append([]string{jsonAssumption, threadAssumption, "net/http.Header from source; mime.ParseMediaType run natively on the (concrete) header value; http.ResponseWriter and request body are harness recorders; io.ReadAll returns the harness body"}, commonAssumptions...),
 		Harnesses: []HarnessSpec{
 			{Dir: "jhttp", Name: "Harness_C18_bridge", Reach: []string{"405", "415", "bad-json", "204", "single", "array"}},
-			{Dir: "jhttp", Name: "Harness_C18_concurrent", Reach: []string{"concurrent"}},
+			{Dir: "jhttp", Name: "Harness_C18_concurrent", Reach: []string{"concurrent"}, Tweak: delays(2, 3)},
 		},
 	})
 	addProp(&PropSpec{
@@ -203,7 +203,7 @@ func registerMore2() {
 		Bounds:      []string{"<= 2 connections", "delay bound 2, context switches at blocking operations", "no RPC traffic on the connections (server behaviour is C01-C10)"},
 		Outside:     []string{"NetAccepter over a real net.Listener", "handler durations (no handlers run here)"},
 		Assumptions: append([]string{threadAssumption}, commonAssumptions...),
-		Harnesses:   []HarnessSpec{{Dir: "server", Name: "Harness_C20_loop", Reach: []string{"waits-for-servers", "finished", "assigner-failed", "accept-error", "done"}}},
+		Harnesses:   []HarnessSpec{{Dir: "server", Name: "Harness_C20_loop", Reach: []string{"waits-for-servers", "finished", "assigner-failed", "accept-error", "done"}, Tweak: delays(2, 3)}},
 	})
 	addProp(&PropSpec{
 		ID: "C11",
@@ -226,7 +226,7 @@ func registerMore2() {
 		Outside:     []string{"several inbound messages in flight at once (C03 harness checks per-request run counts there)", "batches larger than the bound"},
 		Assumptions: append([]string{jsonAssumption, threadAssumption}, commonAssumptions...),
 		Harnesses: []HarnessSpec{
-			{Dir: "jrpc2", Name: "Harness_C01_batch", Reach: []string{"no-output", "result", "error", "unmarshalable"}},
+			{Dir: "jrpc2", Name: "Harness_C01_batch", Reach: []string{"no-output", "result", "error", "unmarshalable"}, Tweak: delays(2, 3)},
 		},
 	})
 	clientExpl := "Inductive single-step verification of the client: from an arbitrary state allowed by the invariant (0..2 pending requests with distinct decimal ids below a symbolic id counter, each with an empty unsettled slot; running or stopped) one real operation is executed with symbolic arguments - deliverLocked of an arbitrary inbound member, a whole Client.Batch of 1..3 specs (goroutine, then its replies in reverse order), waitComplete after the context ended (before/after the reply), stopLocked with each cause twice, operations on a stopped client - and the invariant plus the per-step contract are asserted. "
@@ -236,7 +236,7 @@ func registerMore2() {
 		Bounds:      []string{"<= 2 pending requests in the pre-state", "Batch of 1..3 specs", "id counter any value in [1, 2^40)", "delay bound 2"},
 		Outside:     []string{"reply ids that are textually different but numerically equal to a pending id (e.g. 01, 1.0) are 'other ids' (the client compares text)", "grouping of replies into arrays is a sequence of deliverLocked steps (covered by induction, not run as one record)"},
 		Assumptions: append([]string{jsonAssumption, threadAssumption, "strconv.FormatInt of a symbolic integer is an opaque decimal token, injective in the integer"}, commonAssumptions...),
-		Harnesses:   []HarnessSpec{{Dir: "jrpc2", Name: "Harness_C04_step", Reach: []string{"delivered", "unknown-id", "sent", "notes-only", "send-failed"}}},
+		Harnesses:   []HarnessSpec{{Dir: "jrpc2", Name: "Harness_C04_step", Reach: []string{"delivered", "unknown-id", "sent", "notes-only", "send-failed"}, Tweak: delays(2, 3)}},
 	})
 	addProp(&PropSpec{
 		ID:          "C05",
@@ -244,8 +244,8 @@ func registerMore2() {
 		Bounds:      []string{"<= 2 pending requests in the pre-state", "one step per run (histories by induction)", "delay bound 2"},
 		Outside:     []string{"'leaving no goroutine behind' beyond the threads of one step", "deadline (as opposed to cancel) contexts in the step harness: filterError's mapping of both codes is decided in C14"},
 		Assumptions: append([]string{jsonAssumption, threadAssumption}, commonAssumptions...),
-		Harnesses: []HarnessSpec{{Dir: "jrpc2", Name: "Harness_C04_step", Reach: []string{"cancelled", "too-late-cancel", "stopped", "stopped-send", "send-failed"}},
-			{Dir: "jrpc2", Name: "Harness_C10_client", Reach: []string{"closed", "close-waits"}}},
+		Harnesses: []HarnessSpec{{Dir: "jrpc2", Name: "Harness_C04_step", Reach: []string{"cancelled", "too-late-cancel", "stopped", "stopped-send", "send-failed"}, Tweak: delays(2, 3)},
+			{Dir: "jrpc2", Name: "Harness_C10_client", Reach: []string{"closed", "close-waits"}, Tweak: delays(2, 3)}},
 	})
 	addProp(&PropSpec{
 		ID: "C10",
@@ -270,7 +270,7 @@ func registerMore2() {
 		Assumptions: append([]string{jsonAssumption, threadAssumption}, commonAssumptions...),
 		Harnesses: []HarnessSpec{
 			{Dir: "jrpc2", Name: "Harness_C06_opts", Reach: []string{"explicit", "default"}},
-			{Dir: "jrpc2", Name: "Harness_C06_run", Reach: []string{"done"}},
+			{Dir: "jrpc2", Name: "Harness_C06_run", Reach: []string{"done"}, Tweak: delays(2, 3)},
 		},
 	})
 	addProp(&PropSpec{
